@@ -66,6 +66,10 @@ func c02GenSeeds() {
 	for _, sid := range c02Pool {
 		rec(nil, map[string]bool{sid: true}, sid, 2)
 	}
+	// one header part referenced twice (default and even pages use the same relationship id)
+	for _, x := range [][2]string{{"rId1", "rId2"}, {"rId3", "rId7"}, {"rId2", "x1"}} {
+		c02Seeds = append(c02Seeds, c02Seed{Name: "styles=" + x[0] + ",sharedheader=" + x[1], StylesID: x[0], Others: []c02Rel{{"sharedheader", x[1]}}})
+	}
 }
 
 func (s c02Seed) origin() string {
@@ -113,6 +117,13 @@ func (s c02Seed) build() []byte {
 			p.Overrides["/word/"+name] = foreign.CtHeader
 			p.DocRels = append(p.DocRels, foreign.Rel{ID: o.ID, Type: pkgmodel.RtHeader, Target: name})
 			sect += `<w:headerReference w:type="` + hk[(nhdr-1)%3] + `" r:id="` + o.ID + `"/>`
+		case "sharedheader":
+			nhdr++
+			name := fmt.Sprintf("header%d.xml", nhdr)
+			p.Add("word/"+name, foreign.HeaderXML("FH"))
+			p.Overrides["/word/"+name] = foreign.CtHeader
+			p.DocRels = append(p.DocRels, foreign.Rel{ID: o.ID, Type: pkgmodel.RtHeader, Target: name})
+			sect += `<w:headerReference w:type="default" r:id="` + o.ID + `"/><w:headerReference w:type="even" r:id="` + o.ID + `"/>`
 		case "numbering":
 			p.Add("word/numbering.xml", foreign.NumberingXML())
 			p.Overrides["/word/numbering.xml"] = foreign.CtNumbering
@@ -311,7 +322,18 @@ func (i *c02Inst) Key() string {
 	if i.doc == nil {
 		return "init"
 	}
-	return i.origin + "|" + i.doc.VerifRelDump() + "|" + strings.Join(i.doc.VerifPartNames(), ",") + fmt.Sprintf("|n%d r%d t%d p%d", len(i.doc.Body.Elements), i.reop, i.rend, i.nph) + "|" + i.doc.VerifNotesDump()
+	refs := ""
+	for _, e := range i.doc.Body.Elements {
+		if sp, ok := e.(*document.SectionProperties); ok {
+			for _, r := range sp.HeaderReferences {
+				refs += "h:" + r.Type + ":" + r.ID + ","
+			}
+			for _, r := range sp.FooterReferences {
+				refs += "f:" + r.Type + ":" + r.ID + ","
+			}
+		}
+	}
+	return i.origin + "|" + refs + "|" + i.doc.VerifRelDump() + "|" + strings.Join(i.doc.VerifPartNames(), ",") + fmt.Sprintf("|n%d r%d t%d p%d", len(i.doc.Body.Elements), i.reop, i.rend, i.nph) + "|" + i.doc.VerifNotesDump()
 }
 
 func (i *c02Inst) Deep() []rep.Violation {
